@@ -321,6 +321,14 @@ func (x *Exec) havocTarget(st *State, pre *SEnv, t *SX) {
 		x.arrComp(pre.st, es)
 		x.arrComp(st, es)
 		havocAt("arr_"+sortTag(es), app("sl_arr", s.T))
+	case t.Op == "call" && t.Name == "anyelems":
+		// any backing array with the element sort of the argument may change
+		s := pre.eval(t.Args[0])
+		es, _ := x.elemSort(s)
+		cur := x.arrComp(st, es)
+		name := "arr_" + sortTag(es)
+		st.heap[name] = Val{T: x.freshConst("hv_"+name, cur.S), S: cur.S}
+		st.wrote(name, "*", "true")
 	default:
 		x.errs = append(x.errs, fmt.Sprintf("%s: unsupported modifies target %s", t.Pos, t))
 	}
@@ -431,7 +439,7 @@ func (x *Exec) evalBuiltin(st *State, e *ast.CallExpr, name string) []Val {
 		od := app("sl_off", dst.T)
 		oldInner := app("select", a.T, ref)
 		srcInner := app("select", a.T, app("sl_arr", src.T))
-		st.assume(fmt.Sprintf("(forall ((j Int)) (! (= (select %s j) (ite (and (<= %s j) (< j (+ %s %s))) (select %s (+ %s (- j %s))) (select %s j))) :pattern ((select %s j))))",
+		st.assume(fmt.Sprintf("(forall ((j Int)) (! (= (select %s j) (ite (and (<= %s j) (< j (+ %s %s))) (select %s (at %s (- j %s))) (select %s j))) :pattern ((select %s j))))",
 			na, od, od, n, srcInner, app("sl_off", src.T), od, oldInner, na))
 		x.setComp(st, "arr_"+sortTag(es), Val{T: app("store", a.T, ref, na), S: a.S})
 		st.wrote("arr_"+sortTag(es), ref, app(">", n, "0"))
@@ -477,20 +485,20 @@ func (x *Exec) evalAppend(st *State, e *ast.CallExpr) Val {
 		inplace = app("<=", newLen, cp)
 		ni := x.freshConst("app_in", arrayOf(es))
 		lo := app("+", off, ln)
-		st.assume(fmt.Sprintf("(forall ((j Int)) (! (= (select %s j) (ite (and (<= %s j) (< j (+ %s %s))) (select %s (+ %s (- j %s))) (select %s j))) :pattern ((select %s j))))",
+		st.assume(fmt.Sprintf("(forall ((j Int)) (! (= (select %s j) (ite (and (<= %s j) (< j (+ %s %s))) (select %s (at %s (- j %s))) (select %s j))) :pattern ((select %s j))))",
 			ni, lo, lo, tl, src, app("sl_off", tt.T), lo, inner, ni))
 		newInner = ni
 		na := x.freshConst("app_re", arrayOf(es))
-		st.assume(fmt.Sprintf("(forall ((j Int)) (! (=> (and (<= 0 j) (< j %s)) (= (select %s j) (ite (< j %s) (select %s (+ %s j)) (select %s (+ %s (- j %s)))))) :pattern ((select %s j))))",
+		st.assume(fmt.Sprintf("(forall ((j Int)) (! (=> (and (<= 0 j) (< j %s)) (= (select %s j) (ite (< j %s) (select %s (at %s j)) (select %s (at %s (- j %s)))))) :pattern ((select %s j))))",
 			newLen, na, ln, inner, off, src, app("sl_off", tt.T), ln, na))
 		newArr = na
 	} else {
 		v := x.eval(st, e.Args[1])
 		newLen = app("+", ln, "1")
 		inplace = app("<", ln, cp)
-		newInner = app("store", inner, app("+", off, ln), v.T)
+		newInner = app("store", inner, app("at", off, ln), v.T)
 		na := x.freshConst("app_re", arrayOf(es))
-		st.assume(fmt.Sprintf("(forall ((j Int)) (! (=> (and (<= 0 j) (< j %s)) (= (select %s j) (select %s (+ %s j)))) :pattern ((select %s j))))",
+		st.assume(fmt.Sprintf("(forall ((j Int)) (! (=> (and (<= 0 j) (< j %s)) (= (select %s j) (select %s (at %s j)))) :pattern ((select %s j))))",
 			ln, na, inner, off, na))
 		st.assume(app("=", app("select", na, ln), v.T))
 		newArr = na
